@@ -5,6 +5,8 @@ real `<Type>FieldFormat` constructor and by the Lean model `declareField`; every
 through the real `validated()` and through the model; the declarative guard spec (`Spec.guardSpec`,
 the statement of C03) says for which cells the verdict is fixed whatever the type and rule say.
 """
+import zlib
+
 import core
 from core import enc, line, parse_kv
 
@@ -46,17 +48,26 @@ def type_class(name):
 def impl_decl(ty, fmt, allowed, allow_empty, length, rule, cells):
     from cutplace import data, errors
 
+    # in every other declaration the allowed-characters property is set after the field exists (a CID may list the
+    # property row after the field rows): the range that counts is the data format's, whenever it was declared
+    late = allowed is not None and zlib.crc32(repr((ty, fmt, allowed, allow_empty, length, rule)).encode("utf-8")) % 2 == 1
     try:
         df = data.DataFormat(fmt)
-        if allowed is not None:
+        if allowed is not None and not late:
             df.set_property(data.KEY_ALLOWED_CHARACTERS, allowed)
-        df.validate()
+            df.validate()
     except Exception as error:  # noqa
         return "allowed:" + core.classify_exception(error), None
     try:
         f = type_class(ty)("f", allow_empty, length, rule, df)
     except Exception as error:  # noqa
         return core.classify_exception(error), None
+    if late:
+        try:
+            df.set_property(data.KEY_ALLOWED_CHARACTERS, allowed)
+            df.validate()
+        except Exception as error:  # noqa
+            return "allowed:" + core.classify_exception(error), None
     out = []
     for c in cells:
         try:
